@@ -676,6 +676,10 @@ impl PartialEq for Value {
             (&ValueRepr::String(ref a, _), &ValueRepr::String(ref b, _)) => a == b,
             (&ValueRepr::SmallStr(ref a), &ValueRepr::SmallStr(ref b)) => a.as_str() == b.as_str(),
             (&ValueRepr::Bytes(ref a), &ValueRepr::Bytes(ref b)) => a == b,
+            // invalid values compare by what they hash: kind and detail
+            (&ValueRepr::Invalid(ref a), &ValueRepr::Invalid(ref b)) => {
+                a.kind() == b.kind() && a.detail() == b.detail()
+            }
             // two u128 values do not necessarily fit into the common i128
             // representation `coerce` uses.
             (&ValueRepr::U128(a), &ValueRepr::U128(b)) => ({ a.0 }) == ({ b.0 }),
@@ -885,6 +889,9 @@ impl Ord for Value {
                 a.as_str().cmp(b.as_str())
             }
             (&ValueRepr::Bytes(ref a), &ValueRepr::Bytes(ref b)) => a.cmp(b),
+            (&ValueRepr::Invalid(ref a), &ValueRepr::Invalid(ref b)) => {
+                (a.kind().to_string(), a.detail()).cmp(&(b.kind().to_string(), b.detail()))
+            }
             // `coerce` represents two u128 values as i128, which reverses the
             // order if only one of them exceeds i128::MAX.
             (&ValueRepr::U128(a), &ValueRepr::U128(b)) => { a.0 }.cmp(&{ b.0 }),
